@@ -178,6 +178,19 @@ def run_case(c, stats):
                 core.LOG.in_oracle -= 1
         finally:
             core.LOG.depth = LOGd
+    if len(c["trans"]) % 2 == 0 and any(t[1] == gfa.EPSID for t in c["trans"]):
+        # a bystander with the same state names loses its epsilon moves: nothing changes for this automaton
+        from pyformlang.finite_automaton import Epsilon
+        other = gfa.build(c)
+        for (p_, a_, q_) in [t for t in other if isinstance(t[1], Epsilon)]:
+            call(other.remove_transition, p_, a_, q_)
+        stats.cls("bystander_edited")
+        call(fa.is_deterministic)
+        call(fa.is_empty)
+        if len(ref.states) <= 6:
+            call(fa.is_acyclic)
+        with core.oracle_mode():
+            judge_words(fa, ref, 2)
     if c.get("edits"):
         gfa.apply_edits(fa, c)
         stats.cls("edited")
